@@ -457,6 +457,11 @@ def virtual_body(cfg, K, vmp, history):
         vmp.identity = ()
         if history == "after_serial_other":
             MazeDataset.generate(make_cfg("gen_dfs", {}, 5, 1, {}, seed=3))
+        elif history == "after_parallel_neighbour":
+            # the same generator and grid with default arguments and default endpoint options, through a pool of the same size:
+            # whatever a worker (or the parent) keeps from it must not leak into the generation that follows
+            MazeDataset.generate(make_cfg(cfg.maze_ctor.__name__, {}, cfg.grid_n, 2, {}, seed=9), gen_parallel=True, pool_kwargs=dict(processes=K))
+            vmp.schedule = []
         elif history == "after_parallel_other":
             MazeDataset.generate(make_cfg("gen_dfs", {}, 4, 1, {}, seed=4), gen_parallel=True, pool_kwargs=dict(processes=1))
             vmp.schedule = []
@@ -471,7 +476,7 @@ def layer3_task(t, res):
 
     gen, kw, n, n_mazes, K = t["gen"], t["kw"], t["grid"], t["n_mazes"], t["K"]
     cfg = make_cfg(gen, kw, n, n_mazes, t.get("opts", {}), seed=t.get("seed", 42))
-    keyp = f"C03|generate_parallel|{gen}|{kwkey(kw)}|{t['history']}"
+    keyp = f"C03|generate_parallel|{gen}|{kwkey(kw)}|{opt_key(t.get('opts', {}))}|{t['history']}"
     vmp = VirtualMP(MD, py_seed_base=t["py_seed_base"])
     body = virtual_body(cfg, K, vmp, t["history"])
     real_mp = MD.multiprocessing
@@ -637,6 +642,13 @@ def run(ctx):
             for K, n_mazes in ([(1, 3), (2, 4), (3, 4)] if quick else [(1, 3), (2, 4), (3, 4), (2, 5), (4, 5)]):
                 for e in ((0,) if quick and hist != "fresh" else (0, 1, 2)):
                     T3.append(dict(gen=gen, kw=kw, grid=3, n_mazes=n_mazes, K=K, history=hist, py_seed_base=e, tier=ctx.tier))
+    # endpoint options and generator arguments through the pool, fresh and after a default-argument generation of the same shape
+    for gen, kw, opts in [("gen_dfs", {}, dict(deadend_start=True, endpoints_not_equal=True)), ("gen_prim", {}, dict(allowed_start=[(0, 0)], allowed_end=[(2, 2)])),
+                          ("gen_dfs", dict(do_forks=False), dict(endpoints_not_equal=True)),
+                          ("gen_dfs_percolation", dict(p=0.3), dict(allowed_end=[(0, 1), (2, 2)], endpoints_not_equal=True)), ("gen_wilson", {}, dict(deadend_start=True, deadend_end=True, endpoints_not_equal=True))]:
+        for hist in ("fresh", "after_parallel_neighbour"):
+            for K, n_mazes in ([(2, 3)] if quick else [(1, 3), (2, 3), (3, 4)]):
+                T3.append(dict(gen=gen, kw=kw, grid=3, n_mazes=n_mazes, K=K, history=hist, py_seed_base=0, tier=ctx.tier, opts=opts))
     ctx.pmap("mzcheck.checks.c03", "layer3_task", T3)
     TC = []
     for gen, kw, match in [("gen_wilson", {}, True), ("gen_percolation", dict(p=0.9), True), ("gen_dfs", {}, False)]:
